@@ -129,27 +129,24 @@ theorem infer_str_eq {x y : String} (h : infer x = .ok (.atom (.str y))) : y = x
     · simp at h
     · simp at h
 
-/-- **every string value keeps its kind** (after the fix): a string tag value or collection literal that
-is not YAML's `null` / `~` comes back as the same string, whatever it looks like — a number, a lat,lng, a
-feature id, a `;`-list -/
-theorem string_kind_stable (x : String) (hn : yamlNull x = false) :
+/-- **every string value keeps its kind** (after the fixes): a string tag value or collection literal comes
+back as the same string, whatever it looks like — a number, a lat,lng, a feature id, a `;`-list, YAML's `null` -/
+theorem string_kind_stable (x : String) :
     reinfer (.atom (.str x)) = some (.ok (.atom (.str x))) := by
   simp only [reinfer, encode]
   split
   · rename_i y hy
     have := infer_str_eq hy
     subst this
-    simp [decode, hn, hy]
-  · simp [decode, hn]
+    by_cases hn : yamlNull y = true
+    · simp [decode, hn]
+    · simp [decode, hn, hy]
+  · simp [decode]
 
-/-- a scalar that is stable through the text layer: any non-null string, any int, float, point, id -/
-def AtomStable : Atom → Prop
-  | .str x => yamlNull x = false
-  | _ => True
-
-theorem atom_kind_stable (a : Atom) (h : AtomStable a) : textValue (.atom a) = .ok (.atom a) := by
+/-- every scalar is stable through the text layer: any string, int, float, point, id -/
+theorem atom_kind_stable (a : Atom) : textValue (.atom a) = .ok (.atom a) := by
   cases a with
-  | str x => simp only [textValue, string_kind_stable x h]
+  | str x => simp only [textValue, string_kind_stable x]
   | int n => rfl
   | flt b =>
     have : reinfer (.atom (.flt b)) = some (.ok (.atom (.flt b))) := by
@@ -173,37 +170,30 @@ theorem textTags_of_stable (ts : List Tag) (h : ∀ t, t ∈ ts → ValueStable 
     simp only [textTags, hv, ih (fun x hx => h x (List.mem_cons_of_mem _ hx))]
     rfl
 
-theorem textAtom_of_stable (a : Atom) (h : AtomStable a) : textAtom a = .ok a := by
-  simp only [textAtom, atom_kind_stable a h]
+theorem textAtom_stable (a : Atom) : textAtom a = .ok a := by
+  simp only [textAtom, atom_kind_stable a]
 
-theorem textPairs_of_stable (es : List (Atom × Atom)) (h : ∀ e, e ∈ es → AtomStable e.1 ∧ AtomStable e.2) :
-    textPairs es = .ok es := by
+theorem textPairs_stable (es : List (Atom × Atom)) : textPairs es = .ok es := by
   induction es with
   | nil => rfl
   | cons e r ih =>
     obtain ⟨k, v⟩ := e
-    have hk := textAtom_of_stable k (h (k, v) List.mem_cons_self).1
-    have hv := textAtom_of_stable v (h (k, v) List.mem_cons_self).2
-    simp only [textPairs, hk, hv, ih (fun x hx => h x (List.mem_cons_of_mem _ hx))]
+    simp only [textPairs, textAtom_stable k, textAtom_stable v, ih]
     rfl
 
-def BodyStable : Body → Prop
-  | .collection es => ∀ e, e ∈ es → AtomStable e.1 ∧ AtomStable e.2
-  | _ => True
-
-theorem textBody_of_stable (bd : Body) (h : BodyStable bd) : textBody bd = .ok bd := by
+theorem textBody_stable (bd : Body) : textBody bd = .ok bd := by
   cases bd with
-  | collection es => simp only [textBody, textPairs_of_stable es h]; rfl
+  | collection es => simp only [textBody, textPairs_stable es]; rfl
   | generic => rfl
   | area ps => rfl
   | relation ms => rfl
 
-/-- `KindStable` follows from the values: every tag value recorded in `ModifiedTags` or carried by an
-overlay feature is stable, and so is every collection literal.  With `string_kind_stable` this covers all
-worlds whose tag values are strings (other than `null` / `~`), ints, floats, points and ids. -/
+/-- `KindStable` follows from the tag values: every value recorded in `ModifiedTags` or carried by an
+overlay feature is stable (bodies always are).  With `atom_kind_stable` this covers all worlds whose tag
+values are strings, ints, floats, points and ids. -/
 theorem kindStable_of_values (s : St) (ord : List Id)
     (hmods : ∀ e, e ∈ s.mods → ∀ t, t ∈ sets e.2 → ValueStable t.2)
-    (hfeats : ∀ e, e ∈ s.feats → (∀ t, t ∈ e.2.tags → ValueStable t.2) ∧ BodyStable e.2.body) :
+    (hfeats : ∀ e, e ∈ s.feats → ∀ t, t ∈ e.2.tags → ValueStable t.2) :
     KindStable s ord := by
   intro d hd
   simp only [exportDocs, List.mem_append] at hd
@@ -221,9 +211,57 @@ theorem kindStable_of_values (s : St) (ord : List Id)
     | none => simp [hg] at hd
     | some f =>
       simp only [hg, Option.map_some, Option.some.injEq] at hd; subst hd
-      have := hfeats (id, f) (get_some_mem hg)
-      simp only [textDoc, textTags_of_stable _ this.1, textBody_of_stable _ this.2]
+      simp only [textDoc, textTags_of_stable _ (hfeats (id, f) (get_some_mem hg)), textBody_stable]
       rfl
+
+/-! ## when `Apply` gets through -/
+
+/-- **`Apply` gets through iff `applyGetsThrough`** — an executable condition on the exporting world `s`
+(with the order its features are listed in): every exported feature is accepted by `AddFeature` in the world
+rebuilt from the documents before it.  Then `Apply` leaves exactly the rebuilt world; otherwise it returns
+the error. -/
+theorem apply_gets_through_of_valid (b : Base) (acc : St → Feat → Bool) (s : St) (ord : List Id)
+    (h : applyGetsThrough b acc s ord = true) :
+    importDocs b acc St.empty (exportDocs s ord) = some (rebuild b St.empty (exportDocs s ord)) := by
+  rw [importDocs_eq]
+  unfold applyGetsThrough at h
+  simp [h]
+
+theorem apply_fails_of_not_valid (b : Base) (acc : St → Feat → Bool) (s : St) (ord : List Id)
+    (h : applyGetsThrough b acc s ord = false) :
+    importDocs b acc St.empty (exportDocs s ord) = none := by
+  rw [importDocs_eq]
+  unfold applyGetsThrough at h
+  simp [h]
+
+/-- the predicate spelled out: each exported feature is valid in the world rebuilt from what was exported
+before it … -/
+theorem applyGetsThrough_iff (b : Base) (acc : St → Feat → Bool) (s : St) (ord : List Id) :
+    applyGetsThrough b acc s ord = true ↔
+      ∀ d1 f d2, exportDocs s ord = d1 ++ Doc.feat f :: d2 → acc (rebuild b St.empty d1) f = true :=
+  docsValid_iff b acc _ _
+
+/-- … and that world is "the base plus the features exported before": it shows what the exporting world
+shows for every id except the overlay features still to come (for which it shows the base's version with
+the modified tags).  References-first makes it agree with the edited world on everything the feature being
+added refers to (`import_no_missing_reference`); it does not make it agree on the feature's referrers or on
+the other vertices of a ring — that gap is the finding `import-intermediate-state`. -/
+theorem rebuilt_world_at {b : Base} (hb : b.IdsOK) {s : St} (hwf : s.WF)
+    (l1 : List Id) (i : Id) (hi : (get s.feats i).isSome → i ∈ l1) :
+    abs b (rebuild b St.empty (exportDocs s l1)) i = abs b s i :=
+  B6.Model.ChangeExport.rebuilt_world_at hb hwf.1 hwf.2 l1 i hi
+
+/-- **C18 with a checkable hypothesis**: for a well-formed world whose documents are kind-stable and which
+satisfies `applyGetsThrough`, `Apply` on the exported file succeeds and the re-imported world denotes the same
+map as the edited one. -/
+theorem export_import_refines_of_valid {b : Base} {acc : St → Feat → Bool} (hb : b.IdsOK)
+    {s : St} (hwf : s.WF) (ord : List Id) (hcov : ∀ i, (get s.feats i).isSome → i ∈ ord)
+    (hstable : KindStable s ord) (hvalid : applyGetsThrough b acc s ord = true) :
+    ∃ s', textDocs (exportDocs s ord) = .ok (exportDocs s ord) ∧
+      importDocs b acc St.empty (exportDocs s ord) = some s' ∧ abs b s' = abs b s := by
+  have htext := textDocs_of_stable _ hstable
+  have himp := apply_gets_through_of_valid b acc s ord hvalid
+  exact ⟨_, htext, himp, export_import_refines hb hwf.1 hwf.2 ord hcov hstable htext himp⟩
 
 /-! ## ordering: references first -/
 
@@ -306,10 +344,12 @@ example : decode (encodeBare (.atom (.str "123"))) = some (.ok (.atom (.str "123
 example : decode (encodeBare (.atom (.str "1e3"))) = some (.ok (.atom (.str "1e3"))) := by decide
 example : decode (encodeBare (.atom (.str "1,2,3"))) = some (.ok (.atom (.str "1,2,3"))) := by decide
 
-/-- FINDING yaml-null-string: the string `null` makes the exported file undecodable (yaml.v2 treats the
-scalar as null before `UnmarshalYAML` is reached, quoted or not, bare or explicit) -/
+/-- the string `null` written bare (as before `fixes/C18-export-null-string.patch`) makes the exported file
+undecodable: yaml.v2 treats the scalar as null before `UnmarshalYAML` is reached, quoted or not; written in
+the explicit form and read from the generic value it comes back -/
 theorem null_string_counterexample :
-    reinfer (.atom (.str "null")) = none ∧ reinfer (.atom (.str "~")) = none := by decide
+    decode (encodeBare (.atom (.str "null"))) = none ∧ decode (encodeBare (.atom (.str "~"))) = none ∧
+    reinfer (.atom (.str "null")) = some (.ok (.atom (.str "null"))) := by decide
 
 /-- lists are written as their `;`-joined rendering: a one-element list comes back as a scalar, an int
 element as a string (outside the property: such lists are not produced by `ExpressionFromString`) -/
@@ -382,6 +422,9 @@ example : (match textDocs (exportDocs exS (exportOrder exS)) with
     | .ok docs => docs == exportDocs exS (exportOrder exS)
     | .error _ => false) = true := by decide
 
+/-- … the world satisfies the checkable condition … -/
+example : applyGetsThrough exB exAcc exS (exportOrder exS) = true := by decide
+
 /-- … and the import gets through them, validating every feature as it goes -/
 example : (importDocs exB exAcc St.empty (exportDocs exS (exportOrder exS))).isSome = true := by decide
 
@@ -398,6 +441,7 @@ theorem intermediate_state_counterexample :
     exAcc (St.empty.addFeature exB ⟨1007, [("path", .list [nid 2, nid 3, nid 4, nid 2])], .generic⟩)
       ⟨1, [("name", .atom (.str "gone"))], .generic⟩ = true ∧
     exportOrder exT = [1, 1007, 2009, 3010, 4011] ∧
+    applyGetsThrough exB exAcc exT (exportOrder exT) = false ∧
     importDocs exB exAcc St.empty (exportDocs exT (exportOrder exT)) = none ∧
     (importDocs exB exAcc St.empty (exportDocs exT [1007, 1, 2009, 3010, 4011])).isSome = true := by decide
 
